@@ -4,6 +4,8 @@ import (
 	"fmt"
 	"go/ast"
 	"math/big"
+	"regexp"
+	"strings"
 )
 
 // callLine returns the source line of the first call `<...>.<sel>(...)` (or plain
@@ -108,6 +110,74 @@ func condIsBareCall(fn *ast.FuncDecl, sel string, body string) bool {
 	return res
 }
 
+// reBounds parses one of the three directory name expressions of
+// internal/server/snapshotenv.go, `^snapshot-[0-9A-F]Q(-[0-9A-F]Q\.suffix)?$` with Q
+// either + or {m,n} / {m,}, and returns the repetition bounds of the index part and
+// of the id part (max = 2^64 when unbounded). group: the index part may be a group.
+func reBounds(p *Pkg, name string, suffix string) (idxMin, idxMax, idMin, idMax *big.Int) {
+	e, _, ok := p.valueSpec(name)
+	if !ok {
+		panic("variable " + name + " not found")
+	}
+	ce, ok := e.(*ast.CallExpr)
+	if !ok || len(ce.Args) != 1 {
+		panic(name + " is not regexp.MustCompile(<literal>)")
+	}
+	lit, ok := ce.Args[0].(*ast.BasicLit)
+	if !ok {
+		panic(name + ": pattern is not a literal")
+	}
+	pat := strings.Trim(lit.Value, "`\"")
+	q := `(\+|\{(\d+),(\d*)\})`
+	cls := `\[0-9A-F\]`
+	var re *regexp.Regexp
+	if suffix == "" {
+		re = regexp.MustCompile(`^\^snapshot-\(?` + cls + q + `\)?\$$`)
+	} else {
+		re = regexp.MustCompile(`^\^snapshot-` + cls + q + `-` + cls + q + `\\\.` + suffix + `\$$`)
+	}
+	m := re.FindStringSubmatch(pat)
+	if m == nil {
+		panic(fmt.Sprintf("%s: pattern %q has an unexpected shape", name, pat))
+	}
+	unb := new(big.Int).Lsh(big.NewInt(1), 64)
+	bounds := func(g []string) (*big.Int, *big.Int) {
+		if g[0] == "+" {
+			return big.NewInt(1), unb
+		}
+		lo, _ := new(big.Int).SetString(g[1], 10)
+		if g[2] == "" {
+			return lo, unb
+		}
+		hi, _ := new(big.Int).SetString(g[2], 10)
+		return lo, hi
+	}
+	idxMin, idxMax = bounds(m[1:4])
+	if suffix != "" {
+		idMin, idMax = bounds(m[4:7])
+	}
+	return
+}
+
+// sprintfFormat returns the format literal of the fmt.Sprintf call in fn.
+func sprintfFormat(p *Pkg, fn *ast.FuncDecl) string {
+	res := ""
+	ast.Inspect(fn.Body, func(n ast.Node) bool {
+		if ce, ok := n.(*ast.CallExpr); ok {
+			if f, ok := ce.Fun.(*ast.SelectorExpr); ok && f.Sel.Name == "Sprintf" && len(ce.Args) > 0 {
+				if lit, ok := ce.Args[0].(*ast.BasicLit); ok && res == "" {
+					res = strings.Trim(lit.Value, "`\"")
+				}
+			}
+		}
+		return true
+	})
+	if res == "" {
+		panic("no Sprintf format in " + fn.Name.Name)
+	}
+	return res
+}
+
 func c16BoolFact(name string, f func() bool) Fact {
 	return Fact{Name: name, Gen: func() string { return defBool(name, f()) }}
 }
@@ -146,6 +216,39 @@ func init() {
 			p := loadPkg("internal/rsm")
 			return callRank(p, p.Func("StateMachine", "concurrentSave"), "doSave", "sync", "doSave")
 		}),
+		// the directory name codec: getDirName = "snapshot-%016X", getTempDirName = "%s-%d.%s",
+		// and the repetition bounds of the three expressions that recognise the names
+		NFact("name_index_width", func() *big.Int {
+			f := sprintfFormat(srv(), srv().Func("", "getDirName"))
+			m := regexp.MustCompile(`^snapshot-%0(\d+)X$`).FindStringSubmatch(f)
+			if m == nil {
+				panic("getDirName format " + f)
+			}
+			v, _ := new(big.Int).SetString(m[1], 10)
+			return v
+		}),
+		NFact("tmp_id_base", func() *big.Int {
+			f := sprintfFormat(srv(), srv().Func("", "getTempDirName"))
+			switch f {
+			case "%s-%d.%s":
+				return big.NewInt(10)
+			case "%s-%X.%s":
+				return big.NewInt(16)
+			}
+			panic("getTempDirName format " + f)
+		}),
+		NFact("final_re_idx_min", func() *big.Int { a, _, _, _ := reBounds(srv(), "SnapshotDirNamePartsRe", ""); return a }),
+		NFact("final_re_idx_max", func() *big.Int { _, a, _, _ := reBounds(srv(), "SnapshotDirNamePartsRe", ""); return a }),
+		NFact("final2_re_idx_min", func() *big.Int { a, _, _, _ := reBounds(srv(), "SnapshotDirNameRe", ""); return a }),
+		NFact("final2_re_idx_max", func() *big.Int { _, a, _, _ := reBounds(srv(), "SnapshotDirNameRe", ""); return a }),
+		NFact("gen_re_idx_min", func() *big.Int { a, _, _, _ := reBounds(srv(), "GenSnapshotDirNameRe", "generating"); return a }),
+		NFact("gen_re_idx_max", func() *big.Int { _, a, _, _ := reBounds(srv(), "GenSnapshotDirNameRe", "generating"); return a }),
+		NFact("gen_re_id_min", func() *big.Int { _, _, a, _ := reBounds(srv(), "GenSnapshotDirNameRe", "generating"); return a }),
+		NFact("gen_re_id_max", func() *big.Int { _, _, _, a := reBounds(srv(), "GenSnapshotDirNameRe", "generating"); return a }),
+		NFact("recv_re_idx_min", func() *big.Int { a, _, _, _ := reBounds(srv(), "RecvSnapshotDirNameRe", "receiving"); return a }),
+		NFact("recv_re_idx_max", func() *big.Int { _, a, _, _ := reBounds(srv(), "RecvSnapshotDirNameRe", "receiving"); return a }),
+		NFact("recv_re_id_min", func() *big.Int { _, _, a, _ := reBounds(srv(), "RecvSnapshotDirNameRe", "receiving"); return a }),
+		NFact("recv_re_id_max", func() *big.Int { _, _, _, a := reBounds(srv(), "RecvSnapshotDirNameRe", "receiving"); return a }),
 		// SSEnv.FinalizeSnapshot: createFlagFile ; finalDirExists ; renameToFinalDir
 		NFact("finalize_pos_flag", func() *big.Int { p := srv(); return callRank(p, p.Func("SSEnv", "FinalizeSnapshot"), "createFlagFile", "createFlagFile", "finalDirExists", "renameToFinalDir") }),
 		NFact("finalize_pos_check", func() *big.Int { p := srv(); return callRank(p, p.Func("SSEnv", "FinalizeSnapshot"), "finalDirExists", "createFlagFile", "finalDirExists", "renameToFinalDir") }),
